@@ -16,7 +16,7 @@ subprocess.run(['/venv/bin/python', '-m', 'pytest', '-q', '-p', 'no:cacheprovide
 passed = set()
 for tc in ET.parse(out).getroot().iter('testcase'):
     if not any(c.tag in ('failure', 'error', 'skipped') for c in tc):
-        passed.add(f"{tc.get('classname')}::{tc.get('name')}".replace(os.path.abspath(repo), '/repo'))
+        passed.add(f"{tc.get('classname')}::{tc.get('name')}".replace(os.path.abspath(repo), '/repo').replace(os.path.abspath(repo).replace('/', '_'), '_repo'))
 os.unlink(out)
 missing = sorted(want - passed)
 print(f'baseline stable-pass {len(want)}; passing now {len(passed)}; baseline tests no longer passing: {len(missing)}')
